@@ -1,8 +1,8 @@
 (* ApiOps.v — the operator semantics the api family is instantiated with.
-   PROVISIONAL: MiniOps until Match.v / Apply.v / Project.v are merged. *)
-From Lungo.Model Require Import Driver RunApi MiniOps.
+   The matcher is Model/Match.v; update/extract/projection are PROVISIONAL (MiniOps) until Apply.v / Project.v are merged. *)
+From Lungo.Model Require Import Driver RunApi MiniOps Match.
 
-Definition api_match := mini_match.
+Definition api_match := Match.
 Definition api_apply := mini_apply.
 Definition api_extract := mini_extract.
 Definition api_project := mini_project.
